@@ -12,8 +12,9 @@ use crate::{
   trees::{self, Striper},
 };
 
-const KINDS: [Option<O4>; 5] =
-  [None, Some((0, 1, 0, None)), Some((1, 2, 1, None)), Some((0, 1, 1, Some(0))), Some((1, 1, 0, Some(1)))];
+/// (the last two differ only in carrying a name)
+const KINDS: [Option<O4>; 6] =
+  [None, Some((0, 1, 0, None)), Some((1, 2, 1, None)), Some((1, 1, 0, Some(1))), Some((0, 1, 1, Some(0))), Some((0, 1, 1, None))];
 const ROOTS: [Option<&str>; 4] = [None, Some(""), Some("r"), Some("r/")];
 
 fn expected_attr(m: &MapSpec, s: &Seg) -> Option<Attr> {
@@ -298,7 +299,7 @@ pub fn bounds(tier: &str) -> Value {
     "texts": texts(tier),
     "max_segments": max_segs(tier),
     "segment_positions": "every character position and the end-of-text position, strictly increasing; plus every list of <= 2 (thorough 3) segments with one position doubled (each kind for the second segment)",
-    "segment_kinds": "unmapped 1-field; 4-field into source 0 / 1; 5-field with name 0 / 1",
+    "segment_kinds": "unmapped 1-field; 4-field into source 0 / 1; 5-field with name 0 / 1; one location both with and without name",
     "source_roots": ["<none>", "", "r", "r/"],
     "modes": "columns x final in {T,F}^2 directly; map(true)/map(false) of Concat[sms, Raw('')]; same (T, M) through stream_chunks_default (event-for-event equal)",
   })
